@@ -70,6 +70,15 @@ CASES = {
     "tload-under-symbolic-storage": (
         {MAIN: f"PUSH0 TLOAD PUSH0 MSTORE PUSH0 SLOAD PUSH1 0x20 MSTORE {RET}"},
         1, False, {"symbolic_storage": True, "storage_layout": "generic"}, ["C02"]),
+    # CODECOPY / EXTCODECOPY windows that start inside the code and end past it, over dirty memory (zeros beyond the code)
+    "codecopy-across-code-end-dirty": (
+        {MAIN: "PUSH32 0x" + "ff" * 32 + " PUSH0 MSTORE PUSH32 0x" + "ee" * 32 + " PUSH1 0x20 MSTORE "
+               f"PUSH1 0x20 PUSH1 0x04 CODESIZE SUB PUSH0 CODECOPY PUSH1 0x21 PUSH1 0x01 CODESIZE SUB PUSH1 0x40 CODECOPY {RET}"},
+        1, False, {}, ["C01"]),
+    "extcodecopy-across-code-end-dirty": (
+        {MAIN: "PUSH32 0x" + "ff" * 32 + " PUSH0 MSTORE PUSH32 0x" + "ee" * 32 + " PUSH1 0x20 MSTORE "
+               f"PUSH1 0x20 PUSH1 0x02 PUSH0 PUSH2 0x2000 EXTCODECOPY PUSH1 0x08 PUSH1 0x03 PUSH1 0x40 PUSH2 0x2000 EXTCODECOPY {RET}",
+         0x2000: "PUSH1 0x2a PUSH0 MSTORE STOP"}, 1, False, {}, ["C01"]),
     "call-revert-rolls-back": (
         {MAIN: f"PUSH1 0x05 PUSH1 0x01 SSTORE PUSH1 0x20 PUSH1 0x40 PUSH0 PUSH0 PUSH1 0x03 PUSH2 0x2000 PUSH2 0xffff CALL PUSH0 MSTORE PUSH1 0x40 MLOAD PUSH1 0x20 MSTORE PUSH2 0x2000 BALANCE PUSH1 0x60 MSTORE PUSH1 0x01 SLOAD PUSH1 0x80 MSTORE {RET}",
          0x2000: "PUSH1 0x09 PUSH1 0x01 SSTORE CALLVALUE PUSH0 MSTORE PUSH1 0x20 PUSH0 REVERT"}, 1, False, {}, ["C09", "C01"]),
